@@ -208,7 +208,7 @@ func runC29(r *lib.Run) {
 					if nin == 0 {
 						cls = "no-keys"
 					}
-					if strings.Contains(fmt.Sprint(errs), "got unexpected root") && (m.Name == "Id" || m.Name == "IdAny" || m.Name == "CustomData") {
+					if strings.Contains(fmt.Sprint(errs), "got unexpected root") && root.MethodByName("Id").IsValid() && root.MethodByName("Id").Type().NumIn() > 0 {
 						// a top-level node named "id" generates DevicePath.Id(...), which hides the root's own Id() method
 						r.Violate("resolve-error", "top-level-node-named-id-hides-root-Id-method", fmt.Sprintf("%s: %v", chain, errs), w)
 						continue
